@@ -44,7 +44,10 @@ theorem readCount_ok (cfg : DecCfg) (hc : CfgOK cfg) (n : Nat) (rest : Bytes) (h
     have : decide (n ≥ 2147483648) = false := by simp; omega
     simp [this]
   have hl : ¬ n > 4096 := by omega
-  rcases hc with hc | hc <;> simp only [readCount, readLE4_count n rest h1, hs, hc] <;> simp [hl]
+  rcases hc with hc | hc
+  · have : ¬ n > rest.length + 65536 := by omega
+    simp only [readCount, readLE4_count n rest h1, hs, hc]; simp [this]
+  · simp only [readCount, readLE4_count n rest h1, hs, hc]; simp [hl]
 
 mutual
 theorem dt (cfg : DecCfg) (hc : CfgOK cfg) : (v : TVal) → (t : Ty) → Typed t v → Small v →
